@@ -38,6 +38,9 @@ pub enum ProtocolError {
 
     #[error("Failed to serialize/deserialize message on protocol.")]
     SerdeError(#[source] bincode::Error),
+
+    #[error("Malformed message batch.")]
+    MalformedBatch,
 }
 
 #[derive(Error, Debug)]
